@@ -408,6 +408,9 @@ func runC02(rep *Report, tier string, seed int64) {
 			c02Workload(rep, cborRaw(), api, 1, "stalled-closure", st)
 		}
 	}
+	for _, api := range apis() {
+		c02ExpiredNestedCall(rep, api)
+	}
 	// no admission limit: far more handlers in flight / far deeper chains than any plausible built-in bound
 	// (worker pools, semaphores and buffered queues are sized in the hundreds or low thousands)
 	big := []int{1300, 2600}
